@@ -162,6 +162,27 @@ func vfShape(shape int) (map[string]*vfShapeRes, []vfReqKind, []vfShapeEvent) {
 		svc["test.l"] = vfShapeModel("k", vfRefVal("test.b"), "s", vfRefVal("test.s"))
 		svc["test.s"] = vfShapeModel("v", `"s"`)
 		kinds = []vfReqKind{vfSub("test.a"), vfSub("test.c"), vfSub("test.l"), vfUnsub("test.a"), vfUnsub("test.c")}
+	case 8:
+		// a collection holding the same reference twice (the second one
+		// added by an event), both removed again while the member stays
+		// subscribed directly; then a slow parent of the member loads
+		// while the client leaves the member
+		svc["test.c"] = &vfShapeRes{typ: 'c', col: []string{vfRefVal("test.m")}}
+		svc["test.m"] = vfShapeModel("v", `"m"`)
+		svc["test.l"] = vfShapeModel("k", vfRefVal("test.m"), "s", vfRefVal("test.s"))
+		svc["test.s"] = vfShapeModel("v", `"s"`)
+		kinds = []vfReqKind{vfSub("test.c"), vfSub("test.m"), vfSub("test.l"), vfUnsub("test.m")}
+		events = []vfShapeEvent{addRef("test.c", 1, "test.m"), remove("test.c", 1), remove("test.c", 0)}
+	case 9:
+		// a sent parent is deleted while its child stays subscribed
+		// directly; then a slow parent of the child loads while the
+		// client leaves the child
+		svc["test.p"] = vfShapeModel("a", vfRefVal("test.x"))
+		svc["test.x"] = vfShapeModel("v", `"x"`)
+		svc["test.l"] = vfShapeModel("k", vfRefVal("test.x"), "s", vfRefVal("test.s"))
+		svc["test.s"] = vfShapeModel("v", `"s"`)
+		kinds = []vfReqKind{vfSub("test.p"), vfSub("test.x"), vfSub("test.l"), vfUnsub("test.x")}
+		events = []vfShapeEvent{{rid: "test.p", name: "delete", apply: func(svc map[string]*vfShapeRes) string { return "null" }}}
 	case 1:
 		// a collection gaining a reference to a resource the client also
 		// subscribes directly, the collection being left meanwhile
